@@ -324,6 +324,32 @@ theorem os2ip_leftPad (size : Nat) (b : Bytes) : os2ip (leftPad size b) = os2ip 
   · exact os2ip_replicate_zero _ _
   · rfl
 
+/-- a byte string already at the target size is left alone by the padding -/
+theorem leftPad_of_length_eq (size : Nat) (b : Bytes) (h : b.length = size) : leftPad size b = b := by
+  unfold leftPad
+  rw [if_neg (fun hc => by omega)]
+
+/-- `FillBytes` output is already at full width (0 included): padding it changes nothing -/
+theorem leftPad_fillBytes (size x : Nat) : leftPad size (fillBytes size x) = fillBytes size x :=
+  leftPad_of_length_eq size _ (fillBytes_length size x)
+
+/-- `Bytes()` of a number is no longer than `size` exactly when the number fits `size` octets -/
+theorem natBytes_length_le_iff (x size : Nat) : (natBytes x).length ≤ size ↔ x < 256 ^ size := by
+  constructor
+  · intro h
+    have h1 := os2ip_lt (natBytes x)
+    rw [os2ip_natBytes] at h1
+    exact Nat.lt_of_lt_of_le h1 (Nat.pow_le_pow_right (by decide) h)
+  · exact natBytes_length_le x size
+
+/-- `FillBytes` of 0 is all zeros -/
+theorem fillBytes_zero (size : Nat) : fillBytes size 0 = List.replicate size 0 := by
+  induction size with
+  | zero => rfl
+  | succ n ih =>
+    rw [fillBytes, Nat.zero_div, ih, List.replicate_succ']
+    rfl
+
 /-! ### non-vacuity -/
 
 example : encodeECDSASignature 2 1 258 = some [0, 1, 1, 2] := by decide
